@@ -45,6 +45,9 @@ def load_catalogue():
     for p in sorted({m["prop"] for m in cat if m.get("source") != "builtin"}):
         cat.append({"id": "%s-eq-flip-else" % p.lower(), "prop": p, "kind": "equiv", "transform": "flip-else", "edits": [],
                     "why": "every two-armed if/else written with the negated test and the arms exchanged", "source": "builtin"})
+    for p in sorted({m["prop"] for m in cat if m.get("source") != "builtin"}):
+        cat.append({"id": "%s-eq-name-returns" % p.lower(), "prop": p, "kind": "equiv", "transform": "name-returns", "edits": [],
+                    "why": "every returned expression first bound to a fresh local", "source": "builtin"})
     return cat
 
 
@@ -223,6 +226,44 @@ def flip_else_tree(dest):
                         fh.write(out)
 
 
+def name_returns_tree(dest):
+    """every `return <expression>` becomes `ret_value_<k>_ = <expression>; return ret_value_<k>_`
+    (a fresh local per return statement)"""
+    import ast
+
+    class T(ast.NodeTransformer):
+        def __init__(self):
+            self.k = 0
+
+        def visit_Return(self, node):
+            if node.value is None or isinstance(node.value, (ast.Name, ast.Constant)):
+                return node
+            self.k += 1
+            nm = "ret_value_%d_" % self.k
+            a = ast.copy_location(ast.Assign(targets=[ast.Name(id=nm, ctx=ast.Store())], value=node.value, type_comment=None), node)
+            r = ast.copy_location(ast.Return(value=ast.Name(id=nm, ctx=ast.Load())), node)
+            return [a, r]
+
+        def visit_Lambda(self, node):
+            return node
+
+    for base in ("hypnotoad", "examples"):
+        for dp, dn, fn in os.walk(os.path.join(dest, base)):
+            if "test_suite" in dp:
+                continue
+            for f in fn:
+                if f.endswith(".py"):
+                    p = os.path.join(dp, f)
+                    with open(p) as fh:
+                        src = fh.read()
+                    try:
+                        out = ast.unparse(ast.fix_missing_locations(T().visit(ast.parse(src)))) + "\n"
+                    except SyntaxError:
+                        continue
+                    with open(p, "w") as fh:
+                        fh.write(out)
+
+
 def reformat_tree(dest, rename=False):
     import ast
     for base in ("hypnotoad", "examples"):
@@ -282,6 +323,8 @@ def run_one(m, root):
             commute_tree(tmp)
         elif m.get("transform") == "flip-else":
             flip_else_tree(tmp)
+        elif m.get("transform") == "name-returns":
+            name_returns_tree(tmp)
         env = dict(os.environ)
         env["VERIF_REPO"] = tmp
         env["HV_EVIDENCE_DIR"] = os.path.join(tmp, "_ev")
